@@ -48,6 +48,15 @@ def check(rep, an, tier):
                       construct="unit of compute_mean_width", entry=entry, config=res.config)
             seeds(rep, res, entry)
             isotropy(rep, res, entry)
+            scale_free_decisions(rep, res, entry)
+            for ev in res.events("extremum"):
+                ini = ev.d.get("initial")
+                if ini is None or not center:
+                    continue         # (with center=False the data are mean-centred first: the origin lies inside the hull)
+                rep.violated("R-QTY", "support function is an extremum over the samples only", where=ev.loc, construct=ev.text(), entry=entry,
+                             config=res.config,
+                             msg="`initial=` adds a phantom sample to every projection: with center=True (no mean subtraction) the result is the "
+                                 "mean width of hull(X ∪ {initial}) — not translation invariant, and different from the loop path")
             R.rule_purity(rep, res, entry)
     # ---- gamut metric: degree 0; self-ratio forwarding
     for metric in ("width", "volume"):
@@ -65,7 +74,7 @@ def check(rep, an, tier):
                     rep.check("R-QTY", "gamut metric is invariant to the intensity scale (degree 0)", None if d is None else d.get("X", 0) == 0,
                               where=res.fn.loc(), construct="degree of compute_gamut in X", entry=entry, config=res.config, msg=f"degree {d}")
                 if rel_to:
-                    rec = [ev for ev in res.events("call") if ev.d["callee"].name == "compute_gamut" and len(ev.path) == 1]
+                    rec = [ev for ev in res.events("call") if ev.d["callee"].name == "compute_gamut" and R.near(ev)]
                     rep.check("R-FORWARD", "denominator computed by the same metric function", bool(rec), where=res.fn.loc(),
                               construct="compute_gamut(relative_to, …) inside compute_gamut", entry=entry, config=res.config)
                     for ev in rec:
@@ -113,6 +122,7 @@ def check(rep, an, tier):
                       construct=f"first argument of {ev.text()[:50]}", entry=entry, config=res.config,
                       msg=f"the distribution handed to the entropy is its input divided by its own {o}-norm, not by its total: P and Q enter "
                           f"the mixture with unequal mass, so the value is not the Jensen–Shannon divergence and can exceed 1 bit")
+    scale_free_decisions(rep, res, entry)
     v = res.value.flat()
     rep.check("R-QTY", "divergence is dimensionless", None if v.unit is None else v.unit == {}, where=res.fn.loc(),
               construct="unit of the divergence", entry=entry, config=res.config, msg=f"{v.unit}")
@@ -125,6 +135,7 @@ def check(rep, an, tier):
     res = an.run(f"{MET}:compute_volume", kws=dict(X=arr("X", S("M", "DIM"), {"u": 1})),
                  spec={"summaries": {"dreye.api.project:proj_P_for_hull": summary}}, config="flat cloud (projection returns points)")
     v = res.value.flat()
+    scale_free_decisions(rep, res, "compute_volume")
     rets = [r for r in res.events("return") if len(r.path) == 1 and "projected#" in r.d["val"].flat().data | r.d["val"].flat().ctrl]
     deg = [r for r in rets if "projected#" in r.d["val"].flat().data]
     rep.check("R-QTY", "flat clouds: the extent is measured on the projected points", bool(deg), where=res.fn.loc(),
@@ -143,6 +154,15 @@ def check(rep, an, tier):
                   msg="the number of dimensions that carry variance is decided with np.isclose's ABSOLUTE tolerance on a quantity that "
                       "scales with the square of the data: for small-scale flat clouds every cumulative variance is 'close' to the total, the "
                       "affine dimension collapses and the volume is no longer homogeneous in scale")
+    for ev in res.events("ext_call"):
+        if ev.d["dotted"].endswith("decomposition.PCA") or ev.d["dotted"].endswith(".PCA"):
+            w = ev.d["kws"].get("whiten")
+            st = True if (w is None or (w.known and not w.const)) else (False if (w.known and w.const) else None)
+            rep.check("R-QTY", "the projection onto the affine span is an isometry", st, where=ev.loc, construct=ev.text(), entry="proj_P_for_hull",
+                      config=res.config,
+                      msg="PCA(whiten=True) rescales every retained component to unit variance: distances within the span are not preserved, so the "
+                          "hull volume of the projected points is not the volume of the cloud within its affine span (and is scale invariant "
+                          "instead of homogeneous)")
     if not tol:
         rep.undecided("R-QTY", "affine dimension decided on a scale-free quantity", where=res.fn.loc(), construct="rank decision in proj_P_for_hull",
                       entry="proj_P_for_hull", config=res.config)
@@ -250,3 +270,21 @@ def shared_generator(rep, res, entry):
     for ev in plain:
         rep.holds("R-SEED", "numerator and denominator draw identical projections", where=ev.loc, construct=ev.text(), entry=entry,
                   config=res.config, msg="an immutable seed is forwarded; each metric call builds its own generator")
+
+
+def scale_free_decisions(rep, res, entry):
+    """every metric is homogeneous in scale (mean width, volume) or invariant to it (gamut metric, JS divergence): no decision on
+    the path may compare a quantity that carries the input's unit against an ABSOLUTE tolerance (np.isclose / np.allclose defaults)"""
+    seen = set()
+    for ev in res.events("abs_tolerance"):
+        at = ev.d.get("atol")
+        if at is not None and at.known and at.const == 0:
+            continue
+        k = (ev.loc, ev.text())
+        if k in seen:
+            continue
+        seen.add(k)
+        rep.check("R-QTY", "no absolute tolerance on a quantity in the input's units", not ev.d["dimensioned"], where=ev.loc, construct=ev.text(),
+                  entry=entry, config=res.config,
+                  msg="an absolute tolerance (1e-8) is compared with values in the caller's units: for inputs on a small absolute scale distinct "
+                      "points / distributions are declared equal, so the metric is no longer homogeneous in (or invariant to) the scale")
